@@ -1352,6 +1352,27 @@ impl Interp {
                 }
                 Act::Skip
             }
+            Op::PausedLiq { v, who } => {
+                // the pauser halts trading, somebody liquidates the weakest position meanwhile, trading resumes - all in one block
+                let v = self.v_of(*v);
+                let mut best: Option<(S, usize)> = None;
+                for tt in 0..N_TRADERS {
+                    if pre.pos[v][tt].as_ref().map(|p| !p.size.is_zero()).unwrap_or(false) {
+                        if let Some(r) = self.margin_ratio(v, tt) {
+                            if best.as_ref().map(|b| r.lt(&b.0)).unwrap_or(true) {
+                                best = Some((r, tt));
+                            }
+                        }
+                    }
+                }
+                let target = match best {
+                    Some((_, tt)) => tt,
+                    None => return Act::Skip,
+                };
+                self.w.follow.push_back(Act::Liquidate { who: WHO[(*who as usize) % WHO.len()].to_string(), v, target, limit: 0, attach: 0 });
+                self.w.follow.push_back(Act::EngineAdmin { sender: self.w.pauser.clone(), msg: eng::ExecuteMsg::SetPause { pause: false }, attach: 0 });
+                Act::EngineAdmin { sender: self.w.pauser.clone(), msg: eng::ExecuteMsg::SetPause { pause: true }, attach: 0 }
+            }
             Op::Handover { to } => {
                 // the pauser role is handed to a trading account (or back to the deployment's pauser account)
                 let mut cands: Vec<String> = self.w.traders.clone();
